@@ -3,21 +3,27 @@
 (* A behaviour is the list of things the *environment* does; the harness plays them:     *)
 (*   <<"commit">>            upper layer commits the next data PDU                       *)
 (*   <<"read">>              upper layer reads (and frees) the oldest received PDU       *)
-(*   <<"x", out, ch>>        connection event: the central transmits (ch = 1: new data   *)
+(*   <<"x", out, ch, m>>     connection event: the central transmits (ch = 1: new data   *)
 (*                           PDU if it is free to choose, 0: empty PDU); out = what the  *)
-(*                           channel does: lost | crc | mic | ok  (nobuf is decided by   *)
-(*                           the real buffer)                                            *)
+(*                           channel does: lost | crc | mic | ok | enc (nobuf is decided *)
+(*                           by the real buffer; enc = CRC ok on an encrypted link: the  *)
+(*                           harness lets the MIC fail iff the buffer's receive counter  *)
+(*                           differs from the packet counter of the PDU, as CCM does)    *)
+(*                           (m = the outcome on the generator's model path, informative) *)
 (*   <<"r", pout>>           the central receives the answer: lost | ok | nak            *)
 (* The generator follows one path of LLData per behaviour (the answer an implementation  *)
 (* most likely gives: new data if there is some, acknowledgement used on a MIC failure,  *)
 (* not used without buffer); the real answer is judged by LLDataTrace, not by this path. *)
 (*                                                                                       *)
 (* Mode: "plain" no MIC failures (C15); "enc" encrypted link: a retransmission of a data *)
-(*       PDU the peripheral already accepted fails its MIC, nothing else does (C16);     *)
+(*       PDU the peripheral already accepted (and counted) fails its MIC, nothing else   *)
+(*       does (C16);                                                                     *)
 (*       "any" a MIC failure can hit any data PDU (C17)                                  *)
 (* Cover: "all"   BFS over all behaviours of length D (printed at depth D)               *)
 (*        "state" one behaviour per reachable model state   (VIEW GViewState)            *)
 (*        "trans" one behaviour per (operation, model state) (VIEW GViewTrans)           *)
+(*        "mic"   one behaviour per model state and per model state entered by a MIC     *)
+(*                failure (VIEW GViewMic)                                                *)
 (*        "sim"   -simulate: printed at depth D                                          *)
 EXTENDS LLData, TLC, Json
 
@@ -31,6 +37,7 @@ Do(op) == hist' = Append(hist, op)
 Last == IF hist = <<>> THEN <<>> ELSE hist[Len(hist)]
 GViewState == <<vars>>
 GViewTrans == <<vars, Last>>
+GViewMic   == <<vars, Last # <<>> /\ Last[1] = "x" /\ Last[4] = "mic">>
 
 \* the PDU the central puts on air for choice ch
 CPdu(ch) == IF cCur # <<>> THEN cCur[1] ELSE IF ch = 1 THEN MkPdu(Len(cData) + 1) ELSE Empty
@@ -38,7 +45,7 @@ CPdu(ch) == IF cCur # <<>> THEN cCur[1] ELSE IF ch = 1 THEN MkPdu(Len(cData) + 1
 Accepted2(p) == IsData(p) /\ cCur # <<>> /\ cSn # pNesn       \* retransmission of an accepted data PDU
 ScriptOuts(p) ==
     CASE Mode = "plain" -> {"lost", "crc", "ok"}
-      [] Mode = "enc"   -> IF Accepted2(p) THEN {"lost", "crc", "mic"} ELSE {"lost", "crc", "ok"}
+      [] Mode = "enc"   -> {"lost", "crc", "enc"}
       [] OTHER          -> IF IsData(p) THEN {"lost", "crc", "mic", "ok"} ELSE {"lost", "crc", "ok"}
 
 GNext ==
@@ -53,9 +60,11 @@ GNext ==
        \/ \E ch \in 0..1 :
             /\ ch = 1 => (cCur = <<>> /\ Len(cData) < MaxC)
             /\ \E so \in ScriptOuts(CPdu(ch)) :
-                 LET out == IF so # "lost" /\ Len(stored) >= RxCap THEN "nobuf" ELSE so IN
+                 LET out == IF so # "lost" /\ Len(stored) >= RxCap THEN "nobuf"
+                            ELSE IF so = "enc" THEN (IF Accepted2(CPdu(ch)) THEN "mic" ELSE "ok")
+                            ELSE so IN
                  /\ Exchange([sn |-> cSn, nesn |-> cNesn, pdu |-> CPdu(ch)], out, out = "mic", TRUE)
-                 /\ Do(<<"x", so, ch>>)
+                 /\ Do(<<"x", so, ch, out>>)
        \/ \E pout \in POutcomes : CentralRx(pout) /\ Do(<<"r", pout>>)
 
 GSpec == GInit /\ [][GNext]_gvars
